@@ -67,6 +67,55 @@ def partition(fn_name):
     return minterms(sets)
 
 
+def check_pipeline_shape(fn_name):
+    """The homomorphism argument needs the function to be *only* a per-character pipeline: every statement must be one of
+         s = PATTERN.sub(callback, s)            (PATTERN a module-level single-character class regex)
+         for a, b in TABLE: s = s.replace(a, b)  (TABLE a module-level table of (one character, text) pairs)
+         return '<lit>%s<lit>' % s
+       Anything else (a whole-string test, a fast path, slicing ...) is outside the subset: the per-class images then say nothing
+       about longer strings.  -> None if the shape is fine, else a description."""
+    zm = extract.module(ZMOD)
+    dm = extract.module('hszinc.datatypes')
+    node = zm.functions[fn_name]
+    var = node.args.args[0].arg
+    body = [st for st in node.body if not (isinstance(st, ast.Expr) and isinstance(st.value, ast.Constant))]
+    if not body or not isinstance(body[-1], ast.Return):
+        return 'no final return'
+    for st in body[:-1]:
+        if isinstance(st, ast.Assign) and len(st.targets) == 1 and isinstance(st.targets[0], ast.Name) and st.targets[0].id == var \
+                and isinstance(st.value, ast.Call) and isinstance(st.value.func, ast.Attribute) and st.value.func.attr == 'sub' \
+                and isinstance(st.value.func.value, ast.Name) and len(st.value.args) == 2 and isinstance(st.value.args[1], ast.Name) and st.value.args[1].id == var:
+            try:
+                pat, fl = zm.regex(st.value.func.value.id)
+            except Exception as e:
+                return 'pattern %s is not a module-level re.compile: %s' % (st.value.func.value.id, e)
+            from hv.vc.shapes import _single_char_pattern
+            if not _single_char_pattern(re.compile(pat, fl)):
+                return 'pattern %s is not a single-character class' % st.value.func.value.id
+            continue
+        if isinstance(st, ast.For) and isinstance(st.iter, ast.Name) and isinstance(st.target, ast.Tuple) and len(st.target.elts) == 2 and len(st.body) == 1 and not st.orelse:
+            b = st.body[0]
+            a0, a1 = st.target.elts
+            if isinstance(b, ast.Assign) and len(b.targets) == 1 and isinstance(b.targets[0], ast.Name) and b.targets[0].id == var \
+                    and isinstance(b.value, ast.Call) and isinstance(b.value.func, ast.Attribute) and b.value.func.attr == 'replace' \
+                    and isinstance(b.value.func.value, ast.Name) and b.value.func.value.id == var and len(b.value.args) == 2 \
+                    and all(isinstance(x, ast.Name) for x in b.value.args) and b.value.args[0].id == a0.id and b.value.args[1].id == a1.id:
+                tname = st.iter.id
+                try:
+                    table = dm.const(tname) if tname in dm.assigns else zm.const(tname)
+                except Exception as e:
+                    return 'table %s is not a literal: %s' % (tname, e)
+                if not all(isinstance(o, str) and len(o) == 1 and isinstance(e_, str) for o, e_ in table):
+                    return 'table %s has an entry that is not (one character, text)' % tname
+                continue
+        return 'statement outside the per-character pipeline subset: %s' % ast.unparse(st)[:80]
+    r = body[-1].value
+    if not (isinstance(r, ast.BinOp) and isinstance(r.op, ast.Mod) and isinstance(r.left, ast.Constant) and isinstance(r.left.value, str)
+            and r.left.value.count('%s') == 1 and r.left.value.count('%') == 1 and isinstance(r.right, ast.Name) and r.right.id == var):
+        return 'return is not <lit>%%s<lit> %% %s' % var
+    return None
+
+
 def compute_E(fn_name):
     """-> list of (class CS, image Shape, den term or int) ; raises OutOfSubset if the pipeline leaves the per-character subset"""
     out = []
